@@ -50,15 +50,55 @@ def proof(name, functions=(), assumptions=(), family=None, stubs=(), bounded_onl
     return deco
 
 
+PENDING_REUSE = []       # (src, new_name) whose source proof is not loaded yet: resolved by load_contracts()
+
+
 def reuse(src, new_name):
     """register an existing proof under another property's name: the same contract is an obligation of both properties
-    (modular proofs are shared, the check of each property still discharges them itself)"""
+    (modular proofs are shared, the check of each property still discharges them itself).  The module that defines `src`
+    need not be loaded yet: contract modules never import each other for this (no import cycles); the registration is
+    completed by load_contracts(), which imports the source property's modules on demand."""
+    if src not in PROOFS:
+        if (src, new_name) not in PENDING_REUSE:
+            PENDING_REUSE.append((src, new_name))
+        return None
     p = PROOFS[src]
     q = ProofDef(new_name, p.fn, new_name.split("/")[0], list(p.functions), p.assumptions, p.family, list(p.stubs),
                  p.doc, p.bounded_only, p.thorough_only)
     q.shards = p.shards
     PROOFS[new_name] = q
     return q
+
+
+def load_contracts(prop, here=None):
+    """import contracts/<prop>*.py, then complete the shared obligations of <prop> (importing the modules of the properties
+    they come from)"""
+    import glob
+    import importlib
+    here = here or os.path.dirname(os.path.dirname(os.path.abspath(__file__)))
+
+    def imp(pr):
+        return [importlib.import_module("contracts." + os.path.basename(f)[:-3])
+                for f in sorted(glob.glob(os.path.join(here, "contracts", pr + "*.py")))]
+    mods = imp(prop)
+    for _round in range(8):
+        todo = [(s_, n_) for (s_, n_) in PENDING_REUSE if n_.split("/")[0] == prop or n_.split("/")[0] in
+                {s2.split("/")[0] for (s2, n2) in PENDING_REUSE if n2.split("/")[0] == prop}]
+        todo = [(s_, n_) for (s_, n_) in PENDING_REUSE if n_.split("/")[0] == prop]
+        if not todo:
+            break
+        for (s_, n_) in todo:
+            if s_ not in PROOFS:
+                imp(s_.split("/")[0])
+            if s_ in PROOFS:
+                PENDING_REUSE.remove((s_, n_))
+                reuse(s_, n_)
+            elif not any(n2 == s_ for (_s2, n2) in PENDING_REUSE):
+                raise KeyError("shared obligation %s: source proof %s does not exist" % (n_, s_))
+            else:
+                # the source is itself a shared obligation of another property: complete that one first
+                load_contracts(s_.split("/")[0], here)
+    return mods
 
 
 class Outcome:
